@@ -732,4 +732,646 @@ Proof.
   rewrite nested_combine_eq, combine_from_app, E1, combine_from_cons, Hrm. exact H.
 Qed.
 
+
+(* ---------------------------------------------------------------------------------------------------------------- *)
+(* set_value and the inline directives *)
+Notation set_value := (set_value V).
+Notation inline_effect := (inline_effect V).
+Notation inline_over := (inline_over V).
+
+Lemma is_prefix_nil_r p : is_prefix p [] = is_nil p.
+Proof. destruct p; reflexivity. Qed.
+
+Lemma kind_in_some x p' : p' <> [] -> option_map kind_of (lookup_in (Some x) p') =
+  match x with Dict s => kind_at p' s | Leaf _ => None end.
+Proof. intros H. destruct p' as [|k p'']; [congruence|]. destruct x; reflexivity. Qed.
+
+Lemma set_value_cons2 k k1 r v d :
+  set_value (k :: k1 :: r) v d =
+  match dget k d with
+  | None => do s <- set_value (k1 :: r) v []; Ok (dset k (Dict s) d)
+  | Some (Dict s0) => do s <- set_value (k1 :: r) v s0; Ok (dset k (Dict s) d)
+  | Some (Leaf _) => Err ERuntime
+  end.
+Proof. reflexivity. Qed.
+
+Lemma rec_insert_cons2 k k1 r v d :
+  rec_insert V (k :: k1 :: r) v d =
+  match dget k d with
+  | None => do s <- rec_insert V (k1 :: r) v []; Ok (dset k (Dict s) d)
+  | Some (Dict s0) => do s <- rec_insert V (k1 :: r) v s0; Ok (dset k (Dict s) d)
+  | Some (Leaf _) => Err EAssert
+  end.
+Proof. reflexivity. Qed.
+
+Lemma set_value_kind : forall q v d d' p, set_value q v d = Ok d' -> p <> [] ->
+  kind_at p d' = inline_effect p (q, v) (kind_at p d).
+Proof.
+  induction q as [|k rest IH]; intros v d d' p H Hp; [discriminate|].
+  destruct p as [|k0 p']; [congruence|]. clear Hp.
+  unfold Config.inline_effect. cbn [is_prefix].
+  destruct (text_eq_dec k k0) as [->|Hne].
+  2:{ assert (E1 : text_eqb k k0 = false) by (apply text_eqb_false; exact Hne).
+      assert (E2 : text_eqb k0 k = false) by (apply text_eqb_false; congruence).
+      rewrite E1, E2. cbn [andb].
+      assert (Hd : exists y, d' = dset k y d).
+      { destruct rest as [|k1 rest'].
+        - cbn [Config.set_value] in H. inversion H. eexists; reflexivity.
+        - rewrite set_value_cons2 in H. destruct (dget k d) as [[vv|s0]|]; [discriminate| |].
+          + destruct (set_value (k1 :: rest') v s0); [|discriminate]. inversion H. eexists; reflexivity.
+          + destruct (set_value (k1 :: rest') v []); [|discriminate]. inversion H. eexists; reflexivity. }
+      destruct Hd as [y ->]. apply kind_dset_other. congruence. }
+  rewrite text_eqb_refl. cbn [andb].
+  destruct rest as [|k1 rest'].
+  - (* q = [k0] *)
+    cbn [Config.set_value] in H. inversion H; subst d'. clear H. cbn [is_prefix]. rewrite is_prefix_nil_r.
+    unfold Config.kind_at at 1. rewrite lookup_cons, dget_dset_same.
+    destruct p' as [|k2 p'']; reflexivity.
+  - assert (Hs : exists s0 s, set_value (k1 :: rest') v s0 = Ok s /\ d' = dset k0 (Dict s) d /\
+                 forall p2, p2 <> [] -> kind_at (k0 :: p2) d = kind_at p2 s0).
+    { rewrite set_value_cons2 in H. destruct (dget k0 d) as [[vv|s0]|] eqn:Ek; [discriminate| |].
+      - destruct (set_value (k1 :: rest') v s0) as [s|] eqn:Es; [|discriminate]. inversion H. exists s0, s.
+        split; [exact Es|]. split; [reflexivity|]. intros p2 Hp2. unfold Config.kind_at at 1.
+        rewrite lookup_cons, Ek. apply (kind_in_some (Dict s0)). exact Hp2.
+      - destruct (set_value (k1 :: rest') v []) as [s|] eqn:Es; [|discriminate]. inversion H. exists [], s.
+        split; [exact Es|]. split; [reflexivity|]. intros p2 Hp2. unfold Config.kind_at at 1.
+        rewrite lookup_cons, Ek, kind_at_empty. destruct p2; [congruence|reflexivity]. }
+    destruct Hs as (s0 & s & Hs & -> & Hbefore).
+    unfold Config.kind_at at 1. rewrite lookup_cons, dget_dset_same.
+    destruct p' as [|k2 p''].
+    + reflexivity.
+    + rewrite (kind_in_some (Dict s)) by discriminate. rewrite (IH v s0 s (k2 :: p'') Hs) by discriminate.
+      rewrite Hbefore by discriminate. reflexivity.
+Qed.
+
+Lemma fold_res_err {A B} (f : A -> B -> res A) l e :
+  fold_left (fun acc b => do a <- acc; f a b) l (Err e) = Err e.
+Proof. induction l as [|b l IH]; [reflexivity|]. cbn [fold_left bind]. exact IH. Qed.
+
+Section WithCoerce.
+Variable coerce : text -> V.
+
+Lemma parse_inline_nonempty line p raw : parse_inline line = Ok (Some (p, raw)) -> p <> [].
+Proof.
+  unfold parse_inline. destruct (negb _); [discriminate|].
+  destruct (split_colon_separated_string _) as [[[|k [|k2 ks]] v]|]; intros H; inversion H; discriminate.
+Qed.
+
+Lemma process_raw_kind raw : forall d E p, p <> [] -> process_raw_file_for_config V coerce d raw = Ok E ->
+  kind_at p E = inline_over p (inline_settings V coerce raw) (kind_at p d).
+Proof.
+  unfold process_raw_file_for_config, inline_settings, Config.inline_over.
+  induction (splitlines raw) as [|line lines IH]; intros d E p Hp H.
+  - inversion H; reflexivity.
+  - cbn [fold_left bind flat_map] in *. rewrite fold_left_app.
+    destruct (is_inline_line line).
+    + unfold process_inline_config in H. destruct (parse_inline line) as [[[q rawv]|]|e] eqn:Epi; cbn [bind] in H.
+      * destruct (set_value q (coerce rawv) d) as [d1|e] eqn:Es.
+        -- cbn [fold_left]. rewrite (IH d1 E p Hp H). f_equal. apply set_value_kind; assumption.
+        -- rewrite fold_res_err in H. discriminate.
+      * cbn [fold_left]. apply IH; assumption.
+      * rewrite fold_res_err in H. discriminate.
+    + cbn [fold_left]. apply IH; assumption.
+Qed.
+
+(* ---------------------------------------------------------------------------------------------------------------- *)
+(* loaders produce well-formed dicts *)
+Lemma rec_insert_wf : forall ks v d d', wfd d -> rec_insert V ks v d = Ok d' -> wfd d'.
+Proof.
+  induction ks as [|k rest IH]; intros v d d' Hd H; [discriminate|].
+  destruct rest as [|k1 rest'].
+  - cbn [rec_insert] in H. inversion H; subst. apply wfd_dset; [exact Hd | constructor].
+  - rewrite rec_insert_cons2 in H. destruct (dget k d) as [[vv|s0]|] eqn:Ek; [discriminate| |].
+    + destruct (rec_insert V (k1 :: rest') v s0) as [s|] eqn:Es; [|discriminate]. inversion H; subst.
+      apply wfd_dset; [exact Hd|]. eapply IH; [|exact Es]. eapply wfd_dget; eassumption.
+    + destruct (rec_insert V (k1 :: rest') v []) as [s|] eqn:Es; [|discriminate]. inversion H; subst.
+      apply wfd_dset; [exact Hd|]. eapply IH; [|exact Es]. apply wfd_nil.
+Qed.
+
+Lemma records_wf recs d : records_to_nested_dict V recs = Ok d -> wfd d.
+Proof.
+  unfold records_to_nested_dict. generalize wfd_nil. generalize (@nil (key * cfg)) as d0.
+  induction recs as [|[ks v] recs IH]; intros d0 H0 H.
+  - inversion H; subst; exact H0.
+  - cbn [fold_left bind fst snd] in H. destruct (rec_insert V ks v d0) as [d1|e] eqn:E1.
+    + eapply IH; [|exact H]. eapply rec_insert_wf; eassumption.
+    + rewrite fold_res_err in H. discriminate.
+Qed.
+
+Lemma load_toml_wf d d' : wfd d -> load_toml V d = Ok d' -> wfd d'.
+Proof.
+  unfold load_toml. intros Hd. destruct (dget rules_key d) as [[v|rs]|]; [discriminate| |intros H; inversion H; subst; exact Hd].
+  destruct (records_to_nested_dict V _) as [rs'|] eqn:E; [|discriminate]. cbn [bind]. intros H; inversion H; subst.
+  apply wfd_dset; [exact Hd|]. eapply records_wf. exact E.
+Qed.
+
+Definition content_wf (c : fcontent V) : Prop := match c with FToml d => wfd d | FIni _ => True end.
+Definition fs_wf (f : fsys V) : Prop :=
+  Forall (fun pf => Forall (fun nc => content_wf (snd nc)) (snd pf)) f.
+
+Lemma load_file_wf name c d : content_wf c -> load_file V coerce name c = Ok d -> wfd d.
+Proof.
+  unfold load_file. intros Hc. destruct (text_eqb name pyproject); destruct c as [i|t]; try discriminate.
+  - apply load_toml_wf. exact Hc.
+  - unfold load_ini. apply records_wf.
+Qed.
+
+Lemma assoc_path_in {A} p (l : list (path * A)) a : assoc_path p l = Some a -> In (p, a) l.
+Proof.
+  induction l as [|[q b] l IH]; cbn [assoc_path]; [discriminate|]. destruct (path_eqb p q) eqn:E.
+  - apply path_eqb_eq in E; subst. intros H; inversion H; subst. left; reflexivity.
+  - intros H. right. apply IH. exact H.
+Qed.
+Lemma assoc_text_in {A} k (l : list (text * A)) a : assoc_text k l = Some a -> In (k, a) l.
+Proof.
+  induction l as [|[q b] l IH]; cbn [assoc_text]; [discriminate|]. destruct (text_eqb k q) eqn:E.
+  - apply text_eqb_eq in E; subst. intros H; inversion H; subst. left; reflexivity.
+  - intros H. right. apply IH. exact H.
+Qed.
+
+Lemma fs_wf_file f p files name c : fs_wf f -> assoc_path p f = Some files -> assoc_text name files = Some c -> content_wf c.
+Proof.
+  intros Hf H1 H2. apply assoc_path_in in H1. apply assoc_text_in in H2. unfold fs_wf in Hf. rewrite Forall_forall in Hf.
+  specialize (Hf _ H1). cbn [snd] in Hf. rewrite Forall_forall in Hf. exact (Hf _ H2).
+Qed.
+
+End WithCoerce.
+
+
+(* ---------------------------------------------------------------------------------------------------------------- *)
+(* the loader: every stage is the combination of its layers *)
+Section Loader.
+Variable coerce : text -> V.
+Notation load_at := (load_config_at_path V coerce).
+Notation dir_layers := (dir_layers V coerce).
+Notation okind := (okind V).
+
+Lemma sequence_ok {A} : forall (l : list (res A)) ls, sequence l = Ok ls -> l = map Ok ls.
+Proof.
+  induction l as [|r l IH]; intros ls H; cbn [sequence] in H.
+  - inversion H; reflexivity.
+  - destruct r as [a|e]; [|discriminate]. cbn [bind] in H. destruct (sequence l) as [t|e] eqn:E; [|discriminate].
+    inversion H; subst. cbn [map]. f_equal. apply IH. reflexivity.
+Qed.
+
+Lemma okind_map_ok p ls : map (okind p) (map Ok ls) = map (kind_at p) ls.
+Proof. rewrite map_map. reflexivity. Qed.
+
+Definition layer_files (files : list (text * fcontent V)) (names : list text) : list (res dict) :=
+  flat_map (fun fname => match assoc_text fname files with
+                         | Some c => [load_file V coerce fname c]
+                         | None => []
+                         end) names.
+
+Lemma at_path_fold files : forall names pre acc d,
+  nested_combine pre = Ok acc ->
+  fold_left (fun acc fname => do configs <- acc;
+                              match assoc_text fname files with
+                              | Some c => load_config_file V coerce fname c configs
+                              | None => Ok configs
+                              end) names (Ok acc) = Ok d ->
+  exists ls, sequence (layer_files files names) = Ok ls /\ nested_combine (pre ++ ls) = Ok d.
+Proof.
+  induction names as [|fname names IH]; intros pre acc d Hpre H.
+  - inversion H; subst. exists []. split; [reflexivity|]. rewrite app_nil_r. exact Hpre.
+  - cbn [fold_left bind] in H. unfold layer_files. cbn [flat_map]. fold (layer_files files names).
+    destruct (assoc_text fname files) as [c|].
+    + unfold load_config_file in H. destruct (load_file V coerce fname c) as [raw|e] eqn:El; cbn [bind] in H.
+      * destruct (nested_combine [acc; raw]) as [acc'|e] eqn:Ec.
+        -- assert (Hpre' : nested_combine (pre ++ [raw]) = Ok acc').
+           { rewrite combine_assoc_prefix, Hpre. exact Ec. }
+           destruct (IH (pre ++ [raw]) acc' d Hpre' H) as (ls & Hs & Hc).
+           exists (raw :: ls). split.
+           ++ cbn [app sequence bind]. rewrite Hs. reflexivity.
+           ++ rewrite <- app_assoc in Hc. exact Hc.
+        -- rewrite fold_res_err in H. discriminate.
+      * rewrite fold_res_err in H. discriminate.
+    + cbn [app]. apply (IH pre acc d Hpre H).
+Qed.
+
+Lemma dir_layers_eq f pth :
+  dir_layers f pth = match assoc_path (dir_of V f pth) f with
+                     | None => [Err ERuntime]
+                     | Some files => layer_files files filename_options
+                     end.
+Proof. reflexivity. Qed.
+
+Lemma at_path_layers f pth d : load_at f pth = Ok d ->
+  exists ls, sequence (dir_layers f pth) = Ok ls /\ nested_combine ls = Ok d.
+Proof.
+  rewrite dir_layers_eq. unfold load_config_at_path, dir_of.
+  destruct (assoc_path (if is_dir V f pth then pth else removelast pth) f) as [files|]; [|discriminate].
+  intros H. apply (at_path_fold files filename_options [] [] d eq_refl H).
+Qed.
+
+Lemma layer_files_wf files : Forall (fun nc => content_wf (snd nc)) files ->
+  forall names, Forall (fun r => forall d, r = Ok d -> wfd d) (layer_files files names).
+Proof.
+  intros Hf. induction names as [|fname names IH]; [constructor|]. unfold layer_files. cbn [flat_map].
+  destruct (assoc_text fname files) as [c|] eqn:E; [|exact IH]. cbn [app]. constructor; [|exact IH].
+  intros d Hd. apply assoc_text_in in E. rewrite Forall_forall in Hf. specialize (Hf _ E).
+  eapply load_file_wf; eassumption.
+Qed.
+
+Lemma dir_layers_wf f pth : fs_wf f -> Forall (fun r => forall d, r = Ok d -> wfd d) (dir_layers f pth).
+Proof.
+  intros Hf. rewrite dir_layers_eq. destruct (assoc_path (dir_of V f pth) f) as [files|] eqn:E.
+  - apply layer_files_wf. apply assoc_path_in in E. unfold fs_wf in Hf. rewrite Forall_forall in Hf. exact (Hf _ E).
+  - constructor; [discriminate|constructor].
+Qed.
+
+Lemma Forall_map_ok ls : Forall (fun r : res dict => forall d, r = Ok d -> wfd d) (map Ok ls) -> Forall wfd ls.
+Proof.
+  induction ls as [|d ls IH]; intros H; [constructor|]. inversion H; subst. constructor; [auto | apply IH; assumption].
+Qed.
+
+Lemma at_path_kind f pth d : fs_wf f -> load_at f pth = Ok d ->
+  wfd d /\ forall p, kind_at p d = last_some (map (okind p) (dir_layers f pth)).
+Proof.
+  intros Hf H. destruct (at_path_layers f pth d H) as (ls & Hs & Hc).
+  apply sequence_ok in Hs. pose proof (dir_layers_wf f pth Hf) as Hw. rewrite Hs in Hw. apply Forall_map_ok in Hw.
+  split; [eapply nested_combine_wf; eassumption|]. intros p. rewrite Hs, okind_map_ok.
+  apply combine_rightmost; assumption.
+Qed.
+
+Lemma last_some_groups {A} (gs : list (list (option A))) :
+  Config.last_some (map (@Config.last_some A) gs) = Config.last_some (concat gs).
+Proof.
+  induction gs as [|g gs IH]; [reflexivity|]. cbn [map concat Config.last_some]. rewrite last_some_app, IH. reflexivity.
+Qed.
+
+Lemma sequence_at_kind f : fs_wf f -> forall paths ds, sequence (map (load_at f) paths) = Ok ds ->
+  Forall wfd ds /\
+  forall p, map (kind_at p) ds = map (@Config.last_some (option V)) (map (fun q => map (okind p) (dir_layers f q)) paths).
+Proof.
+  intros Hf. induction paths as [|q paths IH]; intros ds H; cbn [map sequence] in H.
+  - inversion H; subst. split; [constructor | reflexivity].
+  - destruct (load_at f q) as [d|e] eqn:Eq; [|discriminate]. cbn [bind] in H.
+    destruct (sequence (map (load_at f) paths)) as [t|e] eqn:Et; [|discriminate]. inversion H; subst.
+    destruct (IH t eq_refl) as [Hw Hk]. destruct (at_path_kind f q d Hf Eq) as [Hwd Hkd].
+    split; [constructor; assumption|]. intros p. cbn [map]. rewrite Hkd, Hk. reflexivity.
+Qed.
+
+Lemma load_extra_kind f extra ec : fs_wf f -> load_extra V coerce f extra = Ok ec ->
+  wfd ec /\ forall p, kind_at p ec = last_some (map (okind p) (extra_layers V coerce f extra)).
+Proof.
+  intros Hf H. destruct extra as [x|].
+  - split.
+    + unfold load_extra in H. destruct (is_dir V f x); [discriminate|].
+      destruct (file_at V f (removelast x) (last x [])) as [c|] eqn:Ef; [|discriminate].
+      unfold file_at in Ef. destruct (assoc_path (removelast x) f) as [files|] eqn:Ea; [|discriminate].
+      eapply load_file_wf; [|exact H]. eapply fs_wf_file; eassumption.
+    + intros p. unfold extra_layers. rewrite H. cbn [map Config.okind Config.last_some].
+      destruct (kind_at p ec); reflexivity.
+  - cbn in H. inversion H; subst. split; [apply wfd_nil|]. intros p. rewrite kind_at_empty. reflexivity.
+Qed.
+
+Lemma up_to_kind f e pth extra ign configs : fs_wf f ->
+  load_config_up_to_path V coerce f e pth extra ign = Ok configs ->
+  wfd configs /\ forall p, kind_at p configs = last_some (map (okind p) (file_layers V coerce f e pth extra ign)).
+Proof.
+  intros Hf H. unfold load_config_up_to_path in H. unfold file_layers.
+  destruct ign.
+  - cbn [bind] in H. destruct (load_extra V coerce f extra) as [ec|e0] eqn:Ee; [|discriminate]. cbn [bind app] in H.
+    destruct (load_extra_kind f extra ec Hf Ee) as [Hwe Hke].
+    assert (Hws : Forall wfd [[]; []; ec]).
+    { constructor; [apply wfd_nil|]. constructor; [apply wfd_nil|]. constructor; [exact Hwe|constructor]. }
+    split; [eapply nested_combine_wf; eassumption|]. intros p.
+    rewrite (combine_rightmost _ configs p Hws H). cbn [map Config.last_some app]. rewrite !kind_at_empty, Hke.
+    destruct (last_some (map (okind p) (extra_layers V coerce f extra))); reflexivity.
+  - set (P1 := removelast (tl (iter_intermediate_paths V f pth (e_home e)))) in *.
+    set (P2 := iter_intermediate_paths V f pth (e_cwd e)) in *.
+    destruct (load_user_appdir_config V coerce f e) as [ua|e0] eqn:Eua; [|discriminate]. cbn [bind] in H.
+    destruct (load_at f (e_home e)) as [u|e0] eqn:Eu; [|discriminate]. cbn [bind] in H.
+    destruct (sequence (map (load_at f) P1)) as [parents|e0] eqn:Ep; [|discriminate]. cbn [bind] in H.
+    destruct (sequence (map (load_at f) P2)) as [stack|e0] eqn:Es; [|discriminate]. cbn [bind] in H.
+    destruct (load_extra V coerce f extra) as [ec|e0] eqn:Ee; [|discriminate]. cbn [bind] in H.
+    destruct (load_extra_kind f extra ec Hf Ee) as [Hwe Hke].
+    destruct (at_path_kind f (e_home e) u Hf Eu) as [Hwu Hku].
+    destruct (sequence_at_kind f Hf P1 parents Ep) as [Hwp Hkp].
+    destruct (sequence_at_kind f Hf P2 stack Es) as [Hws Hks].
+    assert (Hua : wfd ua /\ forall p, kind_at p ua = last_some (map (okind p)
+                    (let d := user_config_dir V f e in if is_dir V f d then dir_layers f d else []))).
+    { unfold load_user_appdir_config in Eua. cbn zeta in *. destruct (is_dir V f (user_config_dir V f e)).
+      - apply at_path_kind; assumption.
+      - inversion Eua; subst. split; [apply wfd_nil|]. intros p. rewrite kind_at_empty. reflexivity. }
+    destruct Hua as [Hwua Hkua].
+    assert (Hall : Forall wfd ([ua; u] ++ parents ++ stack ++ [ec])).
+    { apply Forall_app; split; [constructor; [exact Hwua|]; constructor; [exact Hwu|constructor]|]. apply Forall_app; split; [exact Hwp|].
+      apply Forall_app; split; [exact Hws|]. constructor; [exact Hwe|constructor]. }
+    split; [eapply nested_combine_wf; eassumption|]. intros p.
+    rewrite (combine_rightmost _ configs p Hall H).
+    rewrite !map_app. cbn [map]. rewrite Hkp, Hks, Hkua, Hku, Hke.
+    rewrite !flat_map_concat_map, !concat_map.
+    set (g1 := map (okind p) (let d := user_config_dir V f e in if is_dir V f d then dir_layers f d else [])).
+    set (g2 := map (okind p) (dir_layers f (e_home e))).
+    set (G1 := map (map (okind p)) (map (dir_layers f) P1)).
+    set (G2 := map (map (okind p)) (map (dir_layers f) P2)).
+    set (g3 := map (okind p) (extra_layers V coerce f extra)).
+    replace (map (fun q => map (okind p) (dir_layers f q)) P1) with G1 by (unfold G1; rewrite map_map; reflexivity).
+    replace (map (fun q => map (okind p) (dir_layers f q)) P2) with G2 by (unfold G2; rewrite map_map; reflexivity).
+    change ([last_some g1; last_some g2]) with (map last_some [g1; g2]).
+    change ([last_some g3]) with (map last_some [g3]).
+    rewrite <- !map_app. rewrite last_some_groups. f_equal. rewrite !concat_app. cbn [concat app].
+    rewrite !app_nil_r, <- !app_assoc. reflexivity.
+Qed.
+
+End Loader.
+
+
+(* ---------------------------------------------------------------------------------------------------------------- *)
+Section Final.
+Variable coerce : text -> V.
+Notation load_at := (load_config_at_path V coerce).
+Notation file_config := (file_config V coerce).
+
+Lemma single_wf k (x : cfg) : wf x -> wfd [(k, x)].
+Proof. intros H. constructor; [constructor; [intros []|constructor]|]. constructor; [exact H|constructor]. Qed.
+
+Lemma core_wrap_wf ov : wfd ov -> wfd (core_wrap V ov).
+Proof. intros H. destruct ov as [|a l]; [apply wfd_nil|]. apply single_wf. exact H. Qed.
+
+Lemma configs_or_empty_wf c : wfd c -> wfd (configs_or_empty V c).
+Proof. intros H. destruct c as [|a l]; [|exact H]. apply single_wf. apply wfd_nil. Qed.
+
+(* PRECEDENCE *)
+Theorem precedence f e rt sf E :
+  fs_wf f -> wfd (r_defaults V rt) -> wfd (r_overrides V rt) ->
+  file_config f e rt sf = Ok E ->
+  exists configs,
+    load_config_up_to_path V coerce f e (fst sf) (r_extra V rt) (r_ignore_local V rt) = Ok configs /\
+    forall p, p <> [] -> kind_at p E = spec_kind V coerce f e rt sf (is_nil configs) p.
+Proof.
+  intros Hf Hd Ho H. unfold Config.file_config, from_path in H.
+  destruct (load_config_up_to_path V coerce f e (fst sf) (r_extra V rt) (r_ignore_local V rt)) as [configs|e0] eqn:Eu;
+    [|discriminate]. cbn [bind] in H.
+  destruct (fluff_init V (r_defaults V rt) configs (r_overrides V rt)) as [c0|e0] eqn:Ei; [|discriminate]. cbn [bind] in H.
+  exists configs. split; [reflexivity|]. intros p Hp.
+  rewrite (process_raw_kind coerce (snd sf) c0 E p Hp H). unfold spec_kind. f_equal.
+  destruct (up_to_kind coerce f e (fst sf) (r_extra V rt) (r_ignore_local V rt) configs Hf Eu) as [Hwc Hkc].
+  unfold fluff_init in Ei.
+  assert (Hw3 : Forall wfd [r_defaults V rt; configs_or_empty V configs; core_wrap V (r_overrides V rt)]).
+  { constructor; [exact Hd|]. constructor; [apply configs_or_empty_wf; exact Hwc|].
+    constructor; [apply core_wrap_wf; exact Ho | constructor]. }
+  rewrite (combine_rightmost _ c0 p Hw3 Ei). cbn [map]. rewrite !last_some_app.
+  destruct configs as [|c cs].
+  - reflexivity.
+  - cbn [is_nil configs_or_empty]. rewrite Hkc. cbn [Config.last_some].
+    destruct (kind_at p (core_wrap V (r_overrides V rt))); [reflexivity|].
+    destruct (last_some (map (okind V p) _)); reflexivity.
+Qed.
+
+(* ISOLATION: the config of a file is determined by the directories it is read from (and its own text) *)
+Lemma is_dir_agree f f' q : assoc_path q f = assoc_path q f' -> is_dir V f q = is_dir V f' q.
+Proof. unfold is_dir. intros ->. reflexivity. Qed.
+
+Lemma load_at_agree f f' q : assoc_path q f = assoc_path q f' ->
+  assoc_path (dir_of V f q) f = assoc_path (dir_of V f q) f' -> load_at f q = load_at f' q.
+Proof.
+  intros H1 H2. unfold load_config_at_path. unfold dir_of in H2. rewrite <- (is_dir_agree f f' q H1), H2. reflexivity.
+Qed.
+
+Lemma iter_agree f f' inner outer : assoc_path inner f = assoc_path inner f' ->
+  iter_intermediate_paths V f inner outer = iter_intermediate_paths V f' inner outer.
+Proof. intros H. unfold iter_intermediate_paths. rewrite (is_dir_agree f f' inner H). reflexivity. Qed.
+
+Lemma In_removelast {A} (x : A) l : In x (removelast l) -> In x l.
+Proof.
+  induction l as [|a l IH]; [intros []|]. cbn [removelast]. destruct l as [|b l]; [intros []|].
+  intros [H|H]; [left; exact H | right; apply IH; exact H].
+Qed.
+Lemma In_tl {A} (x : A) l : In x (tl l) -> In x l.
+Proof. destruct l; [intros [] | intros H; right; exact H]. Qed.
+
+Theorem isolation f f' e rt sf :
+  (forall q, In q (relevant V f e (r_extra V rt) (fst sf)) -> assoc_path q f = assoc_path q f') ->
+  file_config f e rt sf = file_config f' e rt sf.
+Proof.
+  intros Hag. unfold Config.file_config, from_path. f_equal.
+  unfold relevant in Hag.
+  set (cross := cross_dir e) in *.
+  set (I1 := iter_intermediate_paths V f (fst sf) (e_home e)) in *.
+  set (I2 := iter_intermediate_paths V f (fst sf) (e_cwd e)) in *.
+  set (ups := e_home e :: user_config_dir V f e :: I1 ++ I2) in *.
+  change ([cross; fst sf] ++ ups ++ map (dir_of V f) ups ++ match r_extra V rt with Some x => [x; removelast x] | None => [] end)
+    with (cross :: fst sf :: (ups ++ map (dir_of V f) ups ++ match r_extra V rt with Some x => [x; removelast x] | None => [] end)) in Hag.
+  assert (Hcross : assoc_path cross f = assoc_path cross f') by (apply Hag; left; reflexivity).
+  assert (Hpth : assoc_path (fst sf) f = assoc_path (fst sf) f') by (apply Hag; right; left; reflexivity).
+  assert (Hups : forall q, In q ups -> load_at f q = load_at f' q /\ is_dir V f q = is_dir V f' q).
+  { intros q Hq.
+    assert (H1 : assoc_path q f = assoc_path q f') by (apply Hag; right; right; apply in_or_app; left; exact Hq).
+    split; [|apply is_dir_agree; exact H1]. apply load_at_agree; [exact H1|].
+    apply Hag. right; right. apply in_or_app; right. apply in_or_app; left. apply in_map. exact Hq. }
+  assert (Hucd : user_config_dir V f e = user_config_dir V f' e).
+  { unfold user_config_dir. fold cross. rewrite (is_dir_agree f f' cross Hcross). reflexivity. }
+  assert (HI1 : iter_intermediate_paths V f' (fst sf) (e_home e) = I1) by (symmetry; apply iter_agree; exact Hpth).
+  assert (HI2 : iter_intermediate_paths V f' (fst sf) (e_cwd e) = I2) by (symmetry; apply iter_agree; exact Hpth).
+  assert (Hextra : load_extra V coerce f (r_extra V rt) = load_extra V coerce f' (r_extra V rt)).
+  { unfold load_extra. destruct (r_extra V rt) as [x|]; [|reflexivity].
+    assert (Hx : assoc_path x f = assoc_path x f').
+    { apply Hag. right; right. apply in_or_app; right. apply in_or_app; right. left; reflexivity. }
+    assert (Hx' : assoc_path (removelast x) f = assoc_path (removelast x) f').
+    { apply Hag. right; right. apply in_or_app; right. apply in_or_app; right. right; left; reflexivity. }
+    rewrite (is_dir_agree f f' x Hx). unfold file_at. rewrite Hx'. reflexivity. }
+  unfold load_config_up_to_path. rewrite HI1, HI2, <- Hextra. fold I1 I2.
+  assert (Hua : load_user_appdir_config V coerce f e = load_user_appdir_config V coerce f' e).
+  { unfold load_user_appdir_config. rewrite <- Hucd.
+    destruct (Hups (user_config_dir V f e)) as [H1 H2]; [right; left; reflexivity|]. rewrite H1, H2. reflexivity. }
+  assert (Hhome : load_at f (e_home e) = load_at f' (e_home e)) by (apply Hups; left; reflexivity).
+  assert (Hp1 : map (load_at f) (removelast (tl I1)) = map (load_at f') (removelast (tl I1))).
+  { apply map_ext_in. intros q Hq. apply Hups. right; right. apply in_or_app; left.
+    apply In_tl. apply In_removelast. exact Hq. }
+  assert (Hp2 : map (load_at f) I2 = map (load_at f') I2).
+  { apply map_ext_in. intros q Hq. apply Hups. right; right. apply in_or_app; right. exact Hq. }
+  rewrite Hua, Hhome, Hp1, Hp2. reflexivity.
+Qed.
+
+(* a run is file-by-file: the result for a file does not depend on which other files are linted, or in what order *)
+Lemma run_nth f e rt files i :
+  nth_error (run V coerce f e rt files) i = option_map (file_config f e rt) (nth_error files i).
+Proof. unfold run. apply nth_error_map. Qed.
+
+Lemma run_app f e rt l1 l2 : run V coerce f e rt (l1 ++ l2) = run V coerce f e rt l1 ++ run V coerce f e rt l2.
+Proof. unfold run. apply map_app. Qed.
+
+(* ---------------------------------------------------------------------------------------------------------------- *)
+(* the functools caches are transparent: threading them through a run changes no result *)
+Definition cache_ok (f : fsys V) (c : caches V) : Prop :=
+  (forall q d, assoc_path q (c_file V c) = Some d ->
+     exists content, file_at V f (removelast q) (last q []) = Some content /\ load_file V coerce (last q []) content = Ok d)
+  /\ (forall q d, assoc_path q (c_dir V c) = Some d -> load_at f q = Ok d).
+
+Lemma cache_ok_empty f : cache_ok f (mkCaches [] []).
+Proof. split; intros q d H; discriminate. Qed.
+
+Lemma path_eqb_refl p : path_eqb p p = true.
+Proof. apply path_eqb_eq. reflexivity. Qed.
+
+Lemma assoc_path_cons_inv {A} q p (a : A) l b : assoc_path q ((p, a) :: l) = Some b -> (q = p /\ a = b) \/ assoc_path q l = Some b.
+Proof.
+  cbn [assoc_path]. destruct (path_eqb q p) eqn:E; [|intros H; right; exact H].
+  apply path_eqb_eq in E. intros H; inversion H; subst. left; split; reflexivity.
+Qed.
+
+Lemma load_file_c_ok f p name content c : cache_ok f c -> file_at V f p name = Some content ->
+  exists c', load_file_c V coerce p name content c = (load_file V coerce name content, c') /\ cache_ok f c'.
+Proof.
+  intros [Hc1 Hc2] Hf. unfold load_file_c. destruct (assoc_path (p ++ [name]) (c_file V c)) as [d|] eqn:E.
+  - destruct (Hc1 _ _ E) as (content' & H1 & H2). rewrite removelast_last, last_last in H1. rewrite last_last in H2.
+    rewrite Hf in H1. inversion H1; subst content'. exists c. rewrite H2. split; [reflexivity | split; assumption].
+  - destruct (load_file V coerce name content) as [d|e0] eqn:El.
+    + eexists. split; [reflexivity|]. split; cbn [c_file c_dir]; [|exact Hc2].
+      intros q d' Hq. apply assoc_path_cons_inv in Hq as [[-> ->]|Hq]; [|apply Hc1; exact Hq].
+      exists content. rewrite removelast_last, last_last. split; assumption.
+    + exists c. split; [reflexivity | split; assumption].
+Qed.
+
+Definition at_step (files : list (text * fcontent V)) (acc : res dict) (fname : text) : res dict :=
+  do configs <- acc;
+  match assoc_text fname files with
+  | Some c => load_config_file V coerce fname c configs
+  | None => Ok configs
+  end.
+
+Lemma load_at_unfold f q :
+  load_at f q = match assoc_path (dir_of V f q) f with
+                | None => Err ERuntime
+                | Some files => fold_left (at_step files) filename_options (@Ok dict [])
+                end.
+Proof. reflexivity. Qed.
+
+Lemma at_step_err files l e0 : fold_left (at_step files) l (Err e0) = Err e0.
+Proof. induction l as [|b l IH]; [reflexivity|]. cbn [fold_left]. exact IH. Qed.
+
+Lemma at_path_files_c_ok f p files : assoc_path p f = Some files -> forall names configs c, cache_ok f c ->
+  exists c', at_path_files_c V coerce p files names configs c = (fold_left (at_step files) names (Ok configs), c') /\ cache_ok f c'.
+Proof.
+  intros Hp. induction names as [|fname names IH]; intros configs c Hc.
+  - exists c. split; [reflexivity | exact Hc].
+  - cbn [at_path_files_c fold_left]. unfold at_step at 2. cbn [bind].
+    destruct (assoc_text fname files) as [content|] eqn:Ea; [|apply IH; exact Hc].
+    assert (Hfa : file_at V f p fname = Some content) by (unfold file_at; rewrite Hp; exact Ea).
+    destruct (load_file_c_ok f p fname content c Hc Hfa) as (c1 & H1 & Hc1).
+    unfold mbind at 1. rewrite H1. unfold load_config_file.
+    destruct (load_file V coerce fname content) as [raw|e0]; cbn [bind].
+    + unfold mbind at 1, mlift. destruct (nested_combine [configs; raw]) as [configs'|e0].
+      * apply IH. exact Hc1.
+      * exists c1. rewrite at_step_err. split; [reflexivity | exact Hc1].
+    + exists c1. rewrite at_step_err. split; [reflexivity | exact Hc1].
+Qed.
+
+Lemma load_at_c_ok f q c : cache_ok f c ->
+  exists c', load_config_at_path_c V coerce f q c = (load_at f q, c') /\ cache_ok f c'.
+Proof.
+  intros Hc. unfold load_config_at_path_c. destruct (assoc_path q (c_dir V c)) as [d|] eqn:E.
+  - destruct Hc as [Hc1 Hc2]. rewrite (Hc2 _ _ E). exists c. split; [reflexivity | split; assumption].
+  - rewrite load_at_unfold. unfold dir_of. set (p := if is_dir V f q then q else removelast q).
+    destruct (assoc_path p f) as [files|] eqn:Ep; [|exists c; split; [reflexivity | exact Hc]].
+    destruct (at_path_files_c_ok f p files Ep filename_options [] c Hc) as (c1 & H1 & Hc1). rewrite H1.
+    destruct (fold_left (at_step files) filename_options (@Ok dict [])) as [d|e0] eqn:Ed.
+    + eexists. split; [reflexivity|]. destruct Hc1 as [Ha Hb]. split; cbn [c_file c_dir]; [exact Ha|].
+      intros q' d' Hq. apply assoc_path_cons_inv in Hq as [[-> ->]|Hq]; [|apply Hb; exact Hq].
+      rewrite load_at_unfold. unfold dir_of. fold p. rewrite Ep. exact Ed.
+    + exists c1. split; [reflexivity | exact Hc1].
+Qed.
+
+Lemma msequence_at_ok f : forall paths c, cache_ok f c ->
+  exists c', msequence V (map (load_config_at_path_c V coerce f) paths) c = (sequence (map (load_at f) paths), c') /\ cache_ok f c'.
+Proof.
+  induction paths as [|q paths IH]; intros c Hc.
+  - exists c. split; [reflexivity | exact Hc].
+  - cbn [map msequence sequence]. destruct (load_at_c_ok f q c Hc) as (c1 & H1 & Hc1). unfold mbind at 1. rewrite H1.
+    destruct (load_at f q) as [d|e0]; cbn [bind]; [|exists c1; split; [reflexivity | exact Hc1]].
+    destruct (IH c1 Hc1) as (c2 & H2 & Hc2). unfold mbind at 1. rewrite H2.
+    destruct (sequence (map (load_at f) paths)) as [t|e0]; cbn [bind]; exists c2; (split; [reflexivity | exact Hc2]).
+Qed.
+
+Lemma load_extra_c_ok f extra c : cache_ok f c ->
+  exists c', load_extra_c V coerce f extra c = (load_extra V coerce f extra, c') /\ cache_ok f c'.
+Proof.
+  intros Hc. unfold load_extra_c, load_extra. destruct extra as [x|]; [|exists c; split; [reflexivity | exact Hc]].
+  destruct (is_dir V f x); [exists c; split; [reflexivity | exact Hc]|].
+  destruct (file_at V f (removelast x) (last x [])) as [content|] eqn:Ef; [|exists c; split; [reflexivity | exact Hc]].
+  apply load_file_c_ok; assumption.
+Qed.
+
+Lemma up_to_c_ok f e pth extra ign c : cache_ok f c ->
+  exists c', load_config_up_to_path_c V coerce f e pth extra ign c = (load_config_up_to_path V coerce f e pth extra ign, c')
+             /\ cache_ok f c'.
+Proof.
+  intros Hc. unfold load_config_up_to_path_c, load_config_up_to_path. destruct ign.
+  - unfold mbind at 1, mret at 1. unfold mbind at 1, mret at 1. unfold mbind at 1, mret at 1. unfold mbind at 1, mret at 1.
+    cbn [bind]. destruct (load_extra_c_ok f extra c Hc) as (c1 & H1 & Hc1). unfold mbind at 1. rewrite H1.
+    destruct (load_extra V coerce f extra) as [ec|e0]; cbn [bind]; exists c1; (split; [reflexivity | exact Hc1]).
+  - match goal with |- exists c', mbind V ?m ?k c = _ /\ _ =>
+      assert (Hua : exists c1, m c = (load_user_appdir_config V coerce f e, c1) /\ cache_ok f c1) end.
+    { unfold load_user_appdir_config. cbn zeta. destruct (is_dir V f (user_config_dir V f e)).
+      - apply load_at_c_ok; exact Hc.
+      - exists c. split; [reflexivity | exact Hc]. }
+    destruct Hua as (c1 & H1 & Hc1). unfold mbind at 1. rewrite H1.
+    destruct (load_user_appdir_config V coerce f e) as [ua|e0]; cbn [bind]; [|exists c1; split; [reflexivity | exact Hc1]].
+    destruct (load_at_c_ok f (e_home e) c1 Hc1) as (c2 & H2 & Hc2). unfold mbind at 1. rewrite H2.
+    destruct (load_at f (e_home e)) as [u|e0]; cbn [bind]; [|exists c2; split; [reflexivity | exact Hc2]].
+    destruct (msequence_at_ok f (removelast (tl (iter_intermediate_paths V f pth (e_home e)))) c2 Hc2) as (c3 & H3 & Hc3).
+    unfold mbind at 1. rewrite H3.
+    destruct (sequence (map (load_at f) (removelast (tl (iter_intermediate_paths V f pth (e_home e)))))) as [ps|e0]; cbn [bind];
+      [|exists c3; split; [reflexivity | exact Hc3]].
+    destruct (msequence_at_ok f (iter_intermediate_paths V f pth (e_cwd e)) c3 Hc3) as (c4 & H4 & Hc4).
+    unfold mbind at 1. rewrite H4.
+    destruct (sequence (map (load_at f) (iter_intermediate_paths V f pth (e_cwd e)))) as [st|e0]; cbn [bind];
+      [|exists c4; split; [reflexivity | exact Hc4]].
+    destruct (load_extra_c_ok f extra c4 Hc4) as (c5 & H5 & Hc5). unfold mbind at 1. rewrite H5.
+    destruct (load_extra V coerce f extra) as [ec|e0]; cbn [bind]; exists c5; (split; [reflexivity | exact Hc5]).
+Qed.
+
+Lemma file_config_c_ok f e rt sf c : cache_ok f c ->
+  exists c', file_config_c V coerce f e rt sf c = (file_config f e rt sf, c') /\ cache_ok f c'.
+Proof.
+  intros Hc. unfold file_config_c, Config.file_config, from_path.
+  destruct (up_to_c_ok f e (fst sf) (r_extra V rt) (r_ignore_local V rt) c Hc) as (c1 & H1 & Hc1).
+  unfold mbind. rewrite H1.
+  destruct (load_config_up_to_path V coerce f e (fst sf) (r_extra V rt) (r_ignore_local V rt)) as [configs|e0]; cbn [bind].
+  - unfold mlift. exists c1. split; [|exact Hc1]. destruct (fluff_init V _ configs _); reflexivity.
+  - exists c1. split; [reflexivity | exact Hc1].
+Qed.
+
+Theorem cache_transparent f e rt : forall files c, cache_ok f c ->
+  exists c', run_c V coerce f e rt files c = (run V coerce f e rt files, c') /\ cache_ok f c'.
+Proof.
+  induction files as [|sf files IH]; intros c Hc.
+  - exists c. split; [reflexivity | exact Hc].
+  - cbn [run_c]. destruct (file_config_c_ok f e rt sf c Hc) as (c1 & H1 & Hc1). rewrite H1.
+    destruct (IH c1 Hc1) as (c2 & H2 & Hc2). rewrite H2. exists c2. split; [reflexivity | exact Hc2].
+Qed.
+
+End Final.
+
+
+(* ---------------------------------------------------------------------------------------------------------------- *)
+(* the boolean well-formedness checks are sound *)
+Lemma nodupb_sound l : nodupb l = true -> NoDup l.
+Proof.
+  induction l as [|k r IH]; intros H; [constructor|]. cbn [nodupb] in H. apply andb_true_iff in H as [H1 H2].
+  constructor; [|apply IH; exact H2]. intros Hin. apply negb_true_iff in H1.
+  assert (existsb (text_eqb k) r = true) by (apply existsb_exists; exists k; split; [exact Hin | apply text_eqb_refl]).
+  congruence.
+Qed.
+
+Lemma wfb_sound : forall c, wfb V c = true -> wf c.
+Proof.
+  induction c as [v|l IH] using cfg_ind2; intros H; [constructor|]. cbn [wfb] in H. apply andb_true_iff in H as [H1 H2].
+  constructor; [apply nodupb_sound; exact H1|]. clear H1. induction l as [|[k x] l IHl]; [constructor|].
+  apply andb_true_iff in H2 as [Hx Hl]. inversion IH; subst. constructor; [cbn [snd] in *; auto | apply IHl; assumption].
+Qed.
+
+Lemma wfdb_sound d : wfdb V d = true -> wfd d.
+Proof. apply wfb_sound. Qed.
+
+Lemma fs_wfb_sound f : fs_wfb V f = true -> fs_wf f.
+Proof.
+  unfold fs_wfb, fs_wf. rewrite forallb_forall, Forall_forall. intros H pf Hpf. specialize (H pf Hpf).
+  rewrite forallb_forall in H. rewrite Forall_forall. intros nc Hnc. specialize (H nc Hnc).
+  destruct (snd nc); [exact I | apply wfdb_sound; exact H].
+Qed.
+
 End WithValues.
